@@ -107,7 +107,10 @@ def _run_one(check, batch, agg, timeout, dev, requeue):
     env.setdefault("PYTHONHASHSEED", "0")
     env["PYTHONPATH"] = VERIF
     if batch.get("env"):
-        env.update(batch["env"])
+        env.update({k: v for k, v in batch["env"].items() if v != ""})
+        for k, v in batch["env"].items():
+            if v == "":
+                env.pop(k, None)
     p = subprocess.Popen(worker_cmd(check, dev), stdin=subprocess.PIPE, stdout=subprocess.PIPE,
                          stderr=subprocess.PIPE, text=True, cwd=VERIF, env=env, preexec_fn=_die_with_parent)
     inflight = [None]
@@ -291,7 +294,7 @@ def main(mod):
         # configurations a user can legitimately run the code in: the CLI's DEBUG log level (-l d) and an optimised interpreter
         # (python -O).  A share of the batches runs under each, so that code guarded by the log level or written as an assert
         # is exercised too.  (Monitors and oracles do not depend on either.)
-        if not getattr(mod, "NO_ENV_VARIATION", False):
+        if not getattr(mod, "NO_ENV_VARIATION", False) and "VERIF_LOGLEVEL" not in (b.get("env") or {}):
             if i % 8 == 2:
                 b.setdefault("env", {})["VERIF_LOGLEVEL"] = "DEBUG"
             elif i % 8 == 5:
